@@ -8,7 +8,8 @@ import (
 
 // Alphabet is the name alphabet of the histories: a digit-only name, a name with a space,
 // names that differ only in letter case, a non-ASCII name, a name that spells a keyword.
-var Alphabet = []string{"r1", "R1", "17", "my rule", "x", "规则7", "a.b-c", "end"}
+// "x " and " r1" differ from "x" and "r1" only by a blank at the edge: different names.
+var Alphabet = []string{"r1", "R1", "17", "my rule", "x", "规则7", "a.b-c", "end", "x ", " r1"}
 
 // NeverUsed are queried through IsExist and named in removals, but never built.
 var NeverUsed = []string{"ghost", "r"}
